@@ -223,7 +223,11 @@ func runChild(cfg runCfg, batch int) childResult {
 		if len(tail) > 3000 {
 			tail = tail[:1500] + "\n...\n" + tail[len(tail)-1500:]
 		}
-		v := violation{Prop: cfg.prop, Rule: cfg.prop + "/process-death", Stream: stream, Idx: idx, Seed: cfg.seed, Tier: cfg.tier,
+		rule := cfg.prop + "/process-death"
+		if classifyDeath(string(logb)) == "step-budget" {
+			rule = cfg.prop + "/step-budget-exceeded"
+		}
+		v := violation{Prop: cfg.prop, Rule: rule, Stream: stream, Idx: idx, Seed: cfg.seed, Tier: cfg.tier,
 			Expr: expr, ExprLen: exprLen, Detail: fmt.Sprintf("child process died (%v) during %s; log tail:\n%s", err, note, tail), ChildLog: logPath, BuildMode: cfg.mode,
 			Features: map[string]string{"death": classifyDeath(string(logb))}}
 		if !ok {
@@ -240,6 +244,8 @@ func runChild(cfg runCfg, batch int) childResult {
 
 func classifyDeath(log string) string {
 	switch {
+	case strings.Contains(log, "STEP-BUDGET-EXCEEDED"):
+		return "step-budget"
 	case strings.Contains(log, "stack overflow") || strings.Contains(log, "goroutine stack exceeds"):
 		return "stack-overflow"
 	case strings.Contains(log, "out of memory") || strings.Contains(log, "cannot allocate memory"):
